@@ -78,7 +78,7 @@ package lexer
 //@   loop 1 decreases eofIdx(p) - p.nextCursor
 
 //@ func (*PeekingLexer).PeekAny [C12 C10 C06]
-//@   requires plInv(p)
+//@   requires plInv(p) && match != nil
 //@   ensures p.rawCursor <= rawCursor && rawCursor <= p.nextCursor && t == p.tokens[rawCursor]
 //@   ensures eofAt(p, rawCursor) || match(p.tokens[rawCursor]) || !p.elide[p.tokens[rawCursor].Type]
 //@   ensures forall(k, p.rawCursor, rawCursor, !match(p.tokens[k]))
